@@ -2,6 +2,7 @@
 import copy
 import itertools
 import json
+from fractions import Fraction as F
 
 from mc import adapt
 from mc.ref import drawing as rdw
@@ -48,6 +49,8 @@ def shards(tier):
                 out.append(("declarative lists", ("DL", k2, k3, d1)))
     for k in range(len(handler_cases())):
         out.append(("declarative kinds", ("DK", k)))
+    for k in range(len(SUBDIVISIONS)):
+        out.append(("declarative loops closed over another subdivision", ("DT", k)))
     return out
 
 
@@ -85,6 +88,8 @@ def run_shard(desc):
                 judge_save_load(prog, res, w_list=(0.0, 1.0))
     elif desc[0] == "DL":
         run_declarative_lists(desc[1], desc[2], desc[3], res)
+    elif desc[0] == "DT":
+        run_subdivided_loop(SUBDIVISIONS[desc[1]], res)
     else:
         judge_declarative(handler_cases()[desc[1]], res, kind_case=True)
     return res
@@ -246,6 +251,8 @@ def decl_program(elements):
         else:
             dx, dy = DIRS[e.get("direction", "right")]
             L = e.get("length", 1)
+            if isinstance(L, str):
+                L = F(L)            # lengths that are no short decimals ("1/3") are kept exact on the reference side
             end = (start[0] + dx * L, start[1] + dy * L)
             if t == "line" and "name" not in e:
                 prog.append({"op": "wire", "p": list(start), "q": list(end)})
@@ -308,6 +315,27 @@ def run_declarative_lists(k2, k3, d1, res):
                                     judge_declarative({"unit": 2, "elements": els4}, res)
 
 
+# (number of equal parts, drawing unit): one side of a loop is drawn as n elements of length 1/n, the opposite side as one wire
+# (every part is at least one drawing unit long: schemdraw draws a two-terminal symbol at its natural length of 1.0 when a shorter
+# one is asked for, which is outside the library under test and outside the placement model)
+SUBDIVISIONS = [(3, 7), (3, 3), (2, 3), (3, 4), (6, 7), (7, 9), (3, 5), (8, 9)]
+
+
+def run_subdivided_loop(sd, res):
+    n, unit = sd
+    for d1, d2 in (("up", "right"), ("right", "up"), ("down", "left"), ("left", "down")):
+        back1 = {"up": "down", "down": "up", "left": "right", "right": "left"}[d1]
+        back2 = {"up": "down", "down": "up", "left": "right", "right": "left"}[d2]
+        els = [mk_element("voltage_source", "V1", 0, d1, length=1)]
+        for k in range(n):
+            els.append(mk_element("resistor", "R%d" % (k + 1), k + 1, d2, length="1/%d" % n))
+        els.append(mk_element("resistor", "Rb", n + 1, back1, length=1))
+        els.append({"type": "line", "direction": back2, "length": 1})
+        els.append({"type": "ground"})
+        res["evals"] += 1
+        judge_declarative({"unit": unit, "elements": els}, res)
+
+
 def handler_cases():
     out = []
     for kind in ("resistor", "conductance", "impedance", "capacitor", "inductance", "lamp", "voltage_source", "current_source", "ac_voltage_source", "ac_current_source",
@@ -344,7 +372,8 @@ def judge_declarative(spec, res, kind_case=False):
     if rdw.node_names(prog) is None:
         bump(res["skipped"], "two_names_on_one_node")
         return
-    data = {"unit": spec["unit"], "elements": [{k: (complex(*v) if k in ("Z", "V", "I") and isinstance(v, list) else v) for k, v in e.items() if not k.startswith("_")} for e in spec["elements"]]}
+    data = {"unit": spec["unit"], "elements": [{k: (complex(*v) if k in ("Z", "V", "I") and isinstance(v, list) else float(F(v)) if k == "length" and isinstance(v, str) else v)
+                                                for k, v in e.items() if not k.startswith("_")} for e in spec["elements"]]}
     snap = copy.deepcopy(data)
     bump(res["hits"], "declarative_equals_programmatic")
     if kind_case:
